@@ -11,6 +11,7 @@ import (
 	"sort"
 	"strings"
 	"sync"
+	"sync/atomic"
 
 	"github.com/gookit/rux"
 )
@@ -34,7 +35,12 @@ type rcacheCase struct {
 	Hfb   bool         `json:"hfb"`
 	Cap   int          `json:"cap"`
 	H     []rcacheStep `json:"h"`
+	// number of global middleware, each added with a Use call of its own (3 and 5 leave spare capacity in the shared
+	// slice); chosen by the harness per case, the same for both twins
+	nmw int
 }
+
+var rcacheCaseNo int64
 
 var rcacheTables map[string][][2]any
 var rcacheMu sync.Mutex
@@ -82,6 +88,17 @@ func rcBuild(c rcacheCase, cached bool) *rcTwin {
 	if cached {
 		t.sib = rux.New(opts...)
 	}
+	for i := 0; i < c.nmw; i++ {
+		mark := fmt.Sprint(i + 1)
+		mw := func(cx *rux.Context) {
+			seen, _ := cx.SafeGet("mw").(string)
+			cx.Set("mw", seen+mark)
+		}
+		t.r.Use(mw)
+		if t.sib != nil {
+			t.sib.Use(mw)
+		}
+	}
 	for i, row := range rcacheTables[c.Table] {
 		tag := fmt.Sprintf("r%d", i+1)
 		ms := []string{}
@@ -90,7 +107,7 @@ func rcBuild(c rcacheCase, cached bool) *rcTwin {
 		}
 		t.routes = append(t.routes, t.r.AddNamed(tag, row[0].(string), func(cx *rux.Context) {
 			// (what the router tells the handler about the selected route is part of what the request observes)
-			cx.Text(200, fmt.Sprintf("%s|%s|%v@%v", tag, paramsTag(cx.Params), cx.SafeGet(rux.CTXCurrentRouteName), cx.SafeGet(rux.CTXCurrentRoutePath)))
+			cx.Text(200, fmt.Sprintf("%s|%s|%v@%v|mw=%v", tag, paramsTag(cx.Params), cx.SafeGet(rux.CTXCurrentRouteName), cx.SafeGet(rux.CTXCurrentRoutePath), cx.SafeGet("mw")))
 		}, ms...))
 		if t.sib != nil {
 			t.sib.AddNamed(tag, row[0].(string), func(cx *rux.Context) { cx.Text(200, "SIBLING-"+tag) }, ms...)
@@ -128,6 +145,7 @@ func rcacheReplay(s *Summary, raw json.RawMessage) {
 		fatal("bad rcache case: %v", err)
 	}
 	s.sample(c)
+	c.nmw = []int{3, 0, 5, 1}[atomic.AddInt64(&rcacheCaseNo, 1)%4]
 	cached, plain := rcBuild(c, true), rcBuild(c, false)
 	cache := cached.r.VerifCache()
 	var evs []rux.VerifCacheEvent
